@@ -5,11 +5,11 @@ import common as c
 BASE = {"MaxN": 40, "Works": "{1}", "SharedRoots": "FALSE", "MaxFuture": 0, "MaxForb": 0, "Deviations": "{}"}
 
 
-def sync_consts(H, F=0, ForkAt=0, CpHs=(2,), Peers=(1, 2), Cap=2, CpEnabled=True, Forbid=(), Findings=(), MaxEnv=6, MaxConnects=2, Emit="none", Scenario="s"):
+def sync_consts(H, F=0, ForkAt=0, CpHs=(2,), Peers=(1, 2), Cap=2, CpEnabled=True, Forbid=(), Findings=(), MaxEnv=6, MaxConnects=2, Emit="none", Scenario="s", MaxRestarts=0):
     d = dict(BASE)
     d.update({"Peers": c.tla_set(Peers), "Cap": Cap, "CpEnabled": "TRUE" if CpEnabled else "FALSE", "Forbid": c.tla_set(Forbid),
               "Findings": c.tla_set(Findings), "H": H, "F": F, "ForkAt": ForkAt, "CpHs": c.tla_set(CpHs), "MaxEnv": MaxEnv,
-              "MaxConnects": MaxConnects, "Emit": '"%s"' % Emit, "Scenario": '"%s"' % Scenario})
+              "MaxConnects": MaxConnects, "MaxRestarts": MaxRestarts, "Emit": '"%s"' % Emit, "Scenario": '"%s"' % Scenario})
     return d
 
 
